@@ -1516,3 +1516,23 @@ mut("x-c16-fold-constant-prefix-count", "C16", "src/protocol/nv.rs",
     """            .map(|n| written + n)""",
     """            .map(|_| written + 1)""",
     "R16.4/write", "every prefix is counted as one byte", base="w5-r8")
+
+# ---- round i ---------------------------------------------------------------------------------------------------------------------------
+mut("c04-getvalues-name-through-flags-parser", "C04", "src/protocol/vars.rs",
+    """            Ok(s) => Self::from_name(s).ok_or(ProtocolError::UnknownVariable),""",
+    """            Ok(s) => s.parse().map(Self).map_err(|_| ProtocolError::UnknownVariable),""",
+    "R4.7/", "`A|B`, hex literals and padded names select variables nobody asked for (seed C04-i)")
+mut("c19-interned-alias", "C19", "src/cgi/intern.rs",
+    """    AUTH_TYPE,
+    CONTENT_LENGTH,""",
+    """    AUTH_TYPE,
+    #[strum(to_string = "CONTENT_LENGTH", serialize = "HTTP_CONTENT_LENGTH")]
+    CONTENT_LENGTH,""",
+    "R19.7/", "HTTP_CONTENT_LENGTH is interned as CONTENT_LENGTH (seed C19-i)")
+mut("c16-decoder-rejects-nonminimal-prefix", "C16", "src/protocol/varint.rs",
+    """        Ok(Self(u32::from_be_bytes(buf)))""",
+    """        match u32::from_be_bytes(buf) {
+            v if v < Self::LONG_BIT.into() => Err(io::ErrorKind::InvalidData.into()),
+            v => Ok(Self(v)),
+        }""",
+    "R16.7/", "a complete pair with a four-byte prefix below 128 stops the iterator (seeds C03-i, C16-i)")
